@@ -17,7 +17,7 @@
 (***************************************************************************)
 EXTENDS Integers, Sequences, FiniteSets, TLC, Json
 
-Values == {"0", "1", "f-1", "f+1", "2^31", "2^32", "2^62", "2^63", "2^64-1", "rem-1", "rem+1", "f-4", "f+4", "256", "2^40"}
+Values == {"65535", "0", "1", "f-1", "f+1", "2^31", "2^32", "2^62", "2^63", "2^64-1", "rem-1", "rem+1", "f-4", "f+4", "256", "2^40"}
 
 \* PAR2 numeric fields
 P2Fields == {"main.slice_size", "main.slice_size_1pair", "main.nrecv", "fd.length", "ifsc.npairs", "recv.exp", "recv.datalen"}
@@ -28,7 +28,7 @@ P2Struct == {"remove.creator", "remove.main", "remove.fd", "remove.ifsc", "remov
              "recv.data_short", "recv.data_long", "recv.data_wrong"}
 P1Fields == {"hdr.volume", "hdr.file_count", "hdr.list_offset", "hdr.list_bytes", "hdr.data_offset", "hdr.data_bytes", "hdr.version",
              "ent.entry_bytes", "ent.status", "ent.file_bytes"}
-P1Struct == {"ent.hash", "ent.hash16k", "vol.data_short", "vol.data_long", "vol.number_swapped"}
+P1Struct == {"ent.hash", "ent.hash16k", "vol.data_short", "vol.data_long", "vol.number_swapped", "set.256_entries", "set.255_entries"}
 Where == {"index", "volume", "all"}
 
 \* value classes that make sense for a field (others are skipped)
@@ -39,7 +39,7 @@ Applicable(f, v) ==
     [] f = "main.nrecv" -> v \in {"0", "1", "f-1", "f+1", "2^31", "2^32"}
     [] f = "fd.length" -> v \in {"0", "1", "f-1", "f+1", "rem+1", "2^31", "2^63", "2^64-1"}
     [] f = "ifsc.npairs" -> v \in {"0", "f-1", "f+1"}
-    [] f = "recv.exp" -> v \in {"0", "1", "f+1", "2^31", "2^32", "256"}
+    [] f = "recv.exp" -> v \in {"0", "1", "f+1", "2^31", "2^32", "256", "65535"}
     [] f = "recv.datalen" -> v \in {"0", "f-4", "f+4", "1"}
     [] f = "hdr.volume" -> v \in {"0", "1", "f+1", "256", "2^63"}
     [] f = "hdr.file_count" -> v \in {"0", "1", "f-1", "f+1", "256", "2^31", "2^40", "2^64-1"}
@@ -55,6 +55,8 @@ Applicable(f, v) ==
 
 \* TRUTH LAYER: which mutants still describe the same recoverable data (semantically valid)
 ValidMut(m) ==
+  \* a set of 255 (resp. 256) genuine entries is a valid PAR1 set
+  \/ m.kind = "struct" /\ m.field \in {"set.255_entries", "set.256_entries"}
   \/ m.kind = "struct" /\ m.field \in {"dup.creator", "dup.main", "dup.fd", "dup.ifsc", "dup.recv"}
   \/ m.kind = "struct" /\ m.field = "remove.recv"              \* fewer recovery blocks: still a valid set
   \* volumes need not repeat main / file description / checksum packets (a creator is required in every file)
